@@ -3,6 +3,7 @@ package scen
 import (
 	"bytes"
 	"encoding/json"
+	"errors"
 	"fmt"
 	"io"
 	"math/rand/v2"
@@ -27,6 +28,8 @@ type CrashOp struct {
 	K    string `json:"key,omitempty"`
 	N    string `json:"n,omitempty"`
 	V    int    `json:"v,omitempty"`
+	// CommitErr: the commit of this mutation is refused (disk error)
+	CommitErr bool `json:"commit_err,omitempty"`
 }
 
 // CrashCase is a case of the crash scenario.
@@ -78,6 +81,9 @@ func (CrashScenario) GenCase(r *rand.Rand, prop string) interface{} {
 			op.Kind = "flush"
 		default:
 			op.Kind = "restart"
+		}
+		if k := op.Kind; (k == "create" || k == "update" || k == "delete") && chance(r, 8) {
+			op.CommitErr = true
 		}
 		c.Ops = append(c.Ops, op)
 	}
@@ -244,6 +250,18 @@ func (CrashScenario) Execute(sim *sched.Sim, ci interface{}, prop string, race b
 	cr.open(filepath.Join(root, "g0"))
 	defer func() { cr.db.Close() }()
 
+	// injected disk errors: the commit of a flagged mutation of the workload
+	// is refused; the mutation must then fail and never show up in an image
+	failCommit, commitFired, commitErrs := false, false, 0
+	badger.VerifCommitFault = func() error {
+		if t := sim.Current(); t != nil && t.Name == "workload" && failCommit {
+			failCommit = false
+			commitFired = true
+			return errors.New("simulated disk error at commit")
+		}
+		return nil
+	}
+	defer func() { badger.VerifCommitFault = nil }()
 	restartReq := false
 	w := sim.Go("workload", func() {
 		for i, op := range c.Ops {
@@ -258,6 +276,7 @@ func (CrashScenario) Execute(sim *sched.Sim, ci interface{}, prop string, race b
 				cr.fl = &flight{kind: op.Kind, id: op.ID, old: old, new: nw}
 				wt := cr.st.Write(op.ID)
 				var err error
+				failCommit = op.CommitErr
 				switch op.Kind {
 				case "create":
 					err = wt.Create(*nw)
@@ -266,7 +285,16 @@ func (CrashScenario) Execute(sim *sched.Sim, ci interface{}, prop string, race b
 				case "delete":
 					err = wt.Delete()
 				}
+				failCommit = false
 				wt.Close()
+				if commitFired {
+					commitFired = false
+					commitErrs++
+					h.Evals++
+					if err == nil {
+						h.Violate("C12", "failed-commit-acknowledged", op.Kind, fmt.Sprintf("%s of id %q returned success although its commit was refused", op.Kind, op.ID))
+					}
+				}
 				if err == nil {
 					if nw == nil {
 						delete(cr.acked, op.ID)
@@ -358,7 +386,7 @@ func (CrashScenario) Execute(sim *sched.Sim, ci interface{}, prop string, race b
 	for _, p := range sim.Panics {
 		h.Violate("C12", "panic", panicSignature(p), p)
 	}
-	out := &Outcome{Faults: map[string]int{"crash-image": cr.images, "torn-tail-image": cr.torn, "dirty-restart": cr.gen - 1}, Evals: cr.evals}
+	out := &Outcome{Faults: map[string]int{"crash-image": cr.images, "torn-tail-image": cr.torn, "dirty-restart": cr.gen - 1, "commit-error": commitErrs}, Evals: cr.evals}
 	out.Sample = map[string]interface{}{"prefix": c.Prefix, "ops": len(c.Ops), "seeds": len(c.Seeds), "hook_occurrences": cr.occ, "images": cr.images, "torn": cr.torn, "generations": cr.gen}
 	for _, v := range h.Viol {
 		if prop == "" || v.Property == prop {
